@@ -55,8 +55,28 @@ def showOut : Out → String
   | .nullDeref => "NULLDEREF"
 
 /-- the close events of one GC run come in hash order in C++: both sides sort them (they are consecutive) -/
+def closedSid : Out → Option Nat
+  | .closed sid _ => some sid
+  | _ => none
+
+/-- insert a close event into a run of close events sorted by session id -/
+def insClose (o : Out) (k : Nat) : List Out → List Out
+  | [] => [o]
+  | x :: xs => match closedSid x with
+    | some j => if k < j then o :: x :: xs else x :: insClose o k xs
+    | none => o :: x :: xs
+
+/-- sort every run of consecutive close events by session id (GC / shutdown close in hash order in C++; the harness does the same) -/
+def sortCloseRuns : List Out → List Out
+  | [] => []
+  | o :: os =>
+    let rest := sortCloseRuns os
+    match closedSid o with
+    | some k => insClose o k rest
+    | none => o :: rest
+
 def showOuts (os : List Out) : String :=
-  if os.isEmpty then "-" else ";".intercalate (os.map showOut)
+  if os.isEmpty then "-" else ";".intercalate ((sortCloseRuns os).map showOut)
 
 structure St where
   cfg : Cfg := {}
@@ -65,21 +85,34 @@ structure St where
   addrs : Nat := 16
   /-- number of model inputs so far (the ghost token handed to `step`) -/
   n : Nat := 0
+  /-- `batching.enabled`: which loop flavour orders an epoll batch -/
+  batched : Bool := false
 
 def showState (s : St) : String :=
   let st := s.st
   let ix := (List.range s.addrs).filterMap (fun a => (st.peerIndex a).map (fun sid => s!"{a}>{sid}"))
   let ss := (List.range st.nextSid).filterMap (fun sid => (st.sessions sid).map (fun x =>
     match x.role with
-    | .client => s!"{sid}c@{x.peer}:{x.wq.length}:{bit x.wantWrite}"
+    | .client => s!"{sid}c@{x.peer}:{x.wq.length}:{bit x.wantWrite}:{bit x.armIn}{bit x.armOut}"
     | .serverPeer => s!"{sid}p@{x.peer}/{x.owner}"))
-  let ls := (List.range st.nextLid).filterMap (fun lid => (st.listeners lid).map (fun l => s!"L{lid}:{l.wq.length}:{bit l.wantWrite}"))
+  let ls := (List.range st.nextLid).filterMap (fun lid => (st.listeners lid).map (fun l => s!"L{lid}:{l.wq.length}:{bit l.wantWrite}:{bit l.armIn}{bit l.armOut}"))
   s!"n={st.sessionsCurrent} ix={",".intercalate ix} s={",".intercalate ss} l={",".intercalate ls}"
 
-def doStep (s : St) (i : In) : St × String :=
-  let r := Iora.Udp.step s.cfg s.n s.st i
-  let s' := { s with st := r.1, n := s.n + 1 }
-  (s', s!"{showOuts r.2} | {showState s'}")
+def runIns (s : St) : List In → St × List Out
+  | [] => (s, [])
+  | i :: is =>
+    let r := Iora.Udp.step s.cfg s.n s.st i
+    let r2 := runIns { s with st := r.1, n := s.n + 1 } is
+    (r2.1, r.2 ++ r2.2)
+
+def doSteps (s : St) (is : List In) : St × String :=
+  let r := runIns s is
+  (r.1, s!"{showOuts r.2} | {showState r.1}")
+
+def doStep (s : St) (i : In) : St × String := doSteps s [i]
+
+/-- peers 0–6 are IPv4 sockets (127.0.0.1 / 127.0.0.2), peers 7… are IPv6 (::1) — the harness's convention -/
+def peerV6 (p : Nat) : Bool := p ≥ 7
 
 def parseKV (cfg : Cfg) (kv : String) : Option Cfg :=
   match kv.splitOn "=" with
@@ -94,7 +127,7 @@ def parseKV (cfg : Cfg) (kv : String) : Option Cfg :=
       else if k = "age" then some { cfg with maxConnAgeMs := n * 1000 }
       else if k = "stall" then some { cfg with writeStallTimeoutMs := n }
       else if k = "chunk" then some { cfg with ioReadChunk := n }
-      else if k = "batch" || k = "et" then some cfg       -- event-loop flavour: no effect on the model
+      else if k = "batch" || k = "et" then some cfg       -- event-loop flavour: `batch` only orders multi-event batches (see `step`)
       else none
   | _ => none
 
@@ -107,15 +140,95 @@ def parseDgs (s : String) : Option (List (Addr × Bytes)) :=
       | _, _ => none
     | _ => none)
 
+def parseCmd : List String → Option In
+  | ["connect", p] => p.toNat?.map (fun a => In.connect a (peerV6 a))
+  | ["via", lid, p] =>
+    match lid.toNat?, p.toNat? with
+    | some l, some a => some (.via l a (peerV6 a))
+    | _, _ => none
+  | ["close", sid] => sid.toNat?.map In.close
+  | ["send", sid, pl, ans] =>
+    match sid.toNat?, parsePayload pl, parseAns ans with
+    | some i, some b, some a => some (.cmdSend i b a)
+    | _, _, _ => none
+  | _ => none
+
+/-- split a token list at a separator token -/
+def splitAt (sep : String) : List String → List (List String)
+  | [] => [[]]
+  | t :: ts =>
+    match splitAt sep ts with
+    | [] => [[t]]
+    | g :: gs => if t = sep then [] :: g :: gs else (t :: g) :: gs
+
+/-- one event of an epoll batch: the socket it is about (`none` = a special descriptor), whether it is EPOLLOUT, the model inputs -/
+structure BEv where
+  sock : Option Src
+  out : Bool
+  ins : List In
+
+def parseEv : List String → Option BEv
+  | ["dg", lid, dgs] =>
+    match lid.toNat?, parseDgs dgs with
+    | some l, some ds => some ⟨some (.lst l), false, [.recvFrom l ds]⟩
+    | _, _ => none
+  | ["cdg", sid, pls] =>
+    match sid.toNat?, (pls.splitOn ",").mapM parsePayload with
+    | some i, some ds => some ⟨some (.cli i), false, [.clientRecv i ds]⟩
+    | _, _ => none
+  | ["wl", lid, sc] =>
+    match lid.toNat?, parseScript sc with
+    | some l, some as => some ⟨some (.lst l), true, [.writableL l as]⟩
+    | _, _ => none
+  | ["wc", sid, sc] =>
+    match sid.toNat?, parseScript sc with
+    | some i, some as => some ⟨some (.cli i), true, [.writableC i as]⟩
+    | _, _ => none
+  | ["gc"] => some ⟨none, false, [.gc]⟩
+  | "cmds" :: rest => ((splitAt "/" rest).mapM parseCmd).map (fun is => ⟨none, false, is⟩)
+  | _ => none
+
+/-- is the event's interest armed in state `st` (what the kernel looks at when it builds the batch)? -/
+def armedAt (st : State) (e : BEv) : Bool :=
+  match e.sock with
+  | none => true
+  | some (.lst l) => match st.listeners l with
+    | some x => if e.out then x.armOut else x.armIn
+    | none => false
+  | some (.cli i) => match st.sessions i with
+    | some x => x.role == .client && (if e.out then x.armOut else x.armIn)
+    | none => false
+
+/-- epoll reports ONE event per descriptor: EPOLLIN and EPOLLOUT of the same socket are handled together, IN first
+(`onListener` / `onClient`), at the position of the first of them -/
+partial def mergeSame : List BEv → List BEv
+  | [] => []
+  | e :: es =>
+    let same := es.filter (fun x => x.sock.isSome && x.sock == e.sock)
+    let rest := es.filter (fun x => !(x.sock.isSome && x.sock == e.sock))
+    let grp := e :: same
+    (grp.filter (fun x => !x.out) ++ grp.filter (fun x => x.out)) ++ mergeSame rest
+
 def step (s : St) : List String → St × String
   | "reset" :: kvs =>
     match kvs.foldlM parseKV ({} : Cfg) with
-    | some cfg => ({ cfg := cfg }, "ok")
+    | some cfg => ({ cfg := cfg, batched := kvs.contains "batch=1" }, "ok")
     | none => (s, "bad-op")
   | ["listen"] =>
     let lid := s.st.nextLid
-    let r := doStep s .listen
+    let r := doStep s (.listen false)
     (r.1, s!"L{lid} | {showState r.1}")
+  | ["listen6"] =>
+    let lid := s.st.nextLid
+    let r := doStep s (.listen true)
+    (r.1, s!"L{lid} | {showState r.1}")
+  | "multi" :: rest =>
+    match (splitAt ";" rest).mapM parseEv with
+    | none => (s, "bad-op")
+    | some evs =>
+      let armed := evs.filter (armedAt s.st)
+      let ordered := batchOrder (fun (e : BEv) => e.sock.isNone) s.batched (mergeSame armed)
+      doSteps s (ordered.flatMap (·.ins))
   | ["dg", lid, dgs] =>
     match lid.toNat?, parseDgs dgs with
     | some l, some ds => doStep s (.recvFrom l ds)
@@ -126,11 +239,11 @@ def step (s : St) : List String → St × String
     | _, _ => (s, "bad-op")
   | ["connect", p] =>
     match p.toNat? with
-    | some a => doStep s (.connect a)
+    | some a => doStep s (.connect a (peerV6 a))
     | none => (s, "bad-op")
   | ["via", lid, p] =>
     match lid.toNat?, p.toNat? with
-    | some l, some a => doStep s (.via l a)
+    | some l, some a => doStep s (.via l a (peerV6 a))
     | _, _ => (s, "bad-op")
   | ["close", sid] =>
     match sid.toNat? with
